@@ -15,6 +15,8 @@ CONSTANTS
   RrefFlags = {}
   Options = {}
   MaxEvals = 3
+  TraceSpecies = {}
+  TraceExp <- TExp9
 INVARIANT Verdict
 INVARIANT BackwardConstructionIsEquilibrium
 INVARIANT PerturbationBreaksOneClause
